@@ -195,6 +195,103 @@ def applyFix (f : Fix) (keys : List K) (kids : List (BNode K V)) (slot : Nat) : 
       | _, _ => none
     | _, _ => none
 
+/-- `if (result.has(btree_fixmerge))` in the parent frame: free the emptied child (the one at
+`slot`, or the next one when `childid[slot]` is not empty), close the gap in `slotkey`/`childid`,
+and on level 1 refresh the separator of the surviving leaf.  Returns the new keys, children and
+the number of leaf / inner nodes freed. -/
+def fixMerge (l : Nat) (fx : FixOut K V) (slot : Nat) : Option (List K × List (BNode K V) × Nat × Nat) :=
+  if fx.fixmerge then
+    match fx.kids[slot]? with
+    | none => none
+    | some c =>
+      let s := if c.slotuse ≠ 0 then slot + 1 else slot
+      match fx.kids[s]? with
+      | none => none
+      | some dead =>
+        if s = 0 then none else                -- std::copy(slotkey + slot, ..., slotkey + slot - 1) with slot = 0
+        let keys3 := fx.keys.eraseIdx (s - 1)
+        let kids3 := fx.kids.eraseIdx s
+        let (lf, inf) := if dead.isLeaf then (1, 0) else (0, 1)
+        if l = 1 then
+          match (kids3[s - 1]?).bind BNode.lastKey? with
+          | none => none                       -- child->key(child->slotuse - 1) on an empty or non-leaf child
+          | some k => some (keys3.set (s - 1) k, kids3, lf, inf)
+        else some (keys3, kids3, lf, inf)
+  else some (fx.keys, fx.kids, 0, 0)
+
+/-- the arguments of the recursive call for child `slot` of `inner(keys, kids)`: its neighbours
+(`myleft`, `myright`) and who their parents are (`myleft_parent`, `myright_parent`) -/
+def childCtx (h : Nat) (keys : List K) (kids : List (BNode K V)) (ctx : Ctx K V) (slot : Nat) : Option (Ctx K V) :=
+  let myleft : Option (Option (BNode K V)) :=
+    if slot = 0 then
+      match ctx.left with
+      | none => some none
+      | some (.inner _ lk lc) => if lk.length = 0 then none else some (lc[lk.length - 1]?)   -- left->childid[left->slotuse - 1]
+      | some (.leaf _) => none
+    else some (kids[slot - 1]?)
+  let myright : Option (Option (BNode K V)) :=
+    if slot = keys.length then
+      match ctx.right with
+      | none => some none
+      | some (.inner _ _ rc) => some (rc[0]?)
+      | some (.leaf _) => none
+    else some (kids[slot + 1]?)
+  match myleft, myright with
+  | some ml, some mr =>
+    some { left := ml, right := mr,
+           lp := if slot = 0 then ctx.lp else some ctx.depth,
+           rp := if slot = keys.length then ctx.rp else some ctx.depth,
+           par := some ctx.depth, sepAbove := slot < keys.length, depth := ctx.depth + 1,
+           off := ctx.off + ((kids.take slot).map (leafCount h)).sum }
+  | _, _ => none
+
+/-- the underflow handling of an inner node after its child was processed -/
+def finishInner (p : Params K) (l : Nat) (keys3 : List K) (kids3 : List (BNode K V)) (ctx : Ctx K V)
+    (setSep lastUp : Option K) (leafFree innerFree : Nat) : Option (EraseOut K V) :=
+  let isRoot := ctx.par.isNone
+  if keys3.length < p.innerMin && !(isRoot && keys3.length ≥ 1) then
+    if ctx.left.isNone && ctx.right.isNone then
+      if isRoot then
+        match kids3[0]? with
+        | none => none
+        | some c0 => some { node := c0, rootDrop := true, leafFree := leafFree, innerFree := innerFree + 1 }
+      else none
+    else
+      match decideFix p.innerMin (ctx.left.map BNode.slotuse) (ctx.right.map BNode.slotuse) ctx.lp ctx.rp ctx.par with
+      | none => none
+      | some f =>
+        some { node := .inner l keys3 kids3, setSep := setSep, lastUp := lastUp, fix := f,
+               leafFree := leafFree, innerFree := innerFree }
+  else
+    some { node := .inner l keys3 kids3, setSep := setSep, lastUp := lastUp,
+           leafFree := leafFree, innerFree := innerFree }
+
+/-- everything the frame of `inner(l, keys, kids)` does after the recursive call on child `slot`
+returned `r`: the child's own effects on this node (`setSep`, rebalancing with a sibling), the
+`btree_update_lastkey` / `btree_fixmerge` handling and this node's underflow decision -/
+def afterChild (p : Params K) (l : Nat) (keys : List K) (kids : List (BNode K V)) (ctx : Ctx K V) (slot : Nat)
+    (r : EraseOut K V) : Option (EraseOut K V) :=
+  if r.rootDrop then none else                     -- a non-root child claimed to be the root
+  -- effects the child frame had on this node
+  let kids1 := kids.set slot r.node
+  let keys1 := match r.setSep with | some k => keys.set slot k | none => keys
+  match applyFix r.fix keys1 kids1 slot with
+  | none => none
+  | some fx =>
+    -- result.has(btree_update_lastkey)
+    let lk := match fx.lastUp with | some k => some k | none => r.lastUp
+    let setSep : Option K := match lk with
+      | none => none
+      | some k => if ctx.sepAbove then some k else none
+    let lastUp : Option K := match lk with
+      | none => none
+      | some k => if ctx.sepAbove then none else some k
+    -- result.has(btree_fixmerge)
+    match fixMerge l fx slot with
+    | none => none
+    | some (keys3, kids3, lf, inf) =>
+      finishInner p l keys3 kids3 ctx setSep lastUp (r.leafFree + lf) (r.innerFree + inf)
+
 /-- `erase_one_descend` / `erase_iter_descend`; `none` = the C++ would leave defined behaviour,
 `some none` = `btree_not_found` -/
 def eraseDescend (p : Params K) (tg : Target K) : Nat → BNode K V → Ctx K V → Option (Option (EraseOut K V))
@@ -216,33 +313,9 @@ def eraseDescend (p : Params K) (tg : Target K) : Nat → BNode K V → Ctx K V 
     let tkey := match tg with | .key k => k | .iter _ _ k => k
     let slot0 := findLower p keys tkey
     let visit (slot : Nat) : Option (Option (EraseOut K V)) :=
-      match kids[slot]? with
-      | none => none
-      | some child =>
-        -- neighbours of the child and who their parents are
-        let myleft : Option (Option (BNode K V)) :=
-          if slot = 0 then
-            match ctx.left with
-            | none => some none
-            | some (.inner _ lk lc) => if lk.length = 0 then none else some (lc[lk.length - 1]?)   -- left->childid[left->slotuse - 1]
-            | some (.leaf _) => none
-          else some (kids[slot - 1]?)
-        let myright : Option (Option (BNode K V)) :=
-          if slot = keys.length then
-            match ctx.right with
-            | none => some none
-            | some (.inner _ _ rc) => some (rc[0]?)
-            | some (.leaf _) => none
-          else some (kids[slot + 1]?)
-        match myleft, myright with
-        | some ml, some mr =>
-          eraseDescend p tg h child
-            { left := ml, right := mr,
-              lp := if slot = 0 then ctx.lp else some ctx.depth,
-              rp := if slot = keys.length then ctx.rp else some ctx.depth,
-              par := some ctx.depth, sepAbove := slot < keys.length, depth := ctx.depth + 1,
-              off := ctx.off + ((kids.take slot).map (leafCount h)).sum }
-        | _, _ => none
+      match kids[slot]?, childCtx h keys kids ctx slot with
+      | some child, some cctx => eraseDescend p tg h child cctx
+      | _, _ => none
     let tries := match tg with
       | .key _ => 1
       | .iter .. => keys.length + 1 - slot0
@@ -256,62 +329,7 @@ def eraseDescend (p : Params K) (tg : Target K) : Nat → BNode K V → Ctx K V 
     match scanLoop visit stopAfter tries slot0 with
     | none => none
     | some none => some none
-    | some (some (slot, r)) =>
-      if r.rootDrop then none else                     -- a non-root child claimed to be the root
-      -- effects the child frame had on this node
-      let kids1 := kids.set slot r.node
-      let keys1 := match r.setSep with | some k => keys.set slot k | none => keys
-      match applyFix r.fix keys1 kids1 slot with
-      | none => none
-      | some fx =>
-        -- result.has(btree_update_lastkey)
-        let lk := match fx.lastUp with | some k => some k | none => r.lastUp
-        let (setSep, lastUp) : Option K × Option K :=
-          match lk with
-          | none => (none, none)
-          | some k => if ctx.sepAbove then (some k, none) else (none, some k)
-        -- result.has(btree_fixmerge)
-        let merged : Option (List K × List (BNode K V) × Nat × Nat) :=
-          if fx.fixmerge then
-            match fx.kids[slot]? with
-            | none => none
-            | some c =>
-              let s := if c.slotuse ≠ 0 then slot + 1 else slot
-              match fx.kids[s]? with
-              | none => none
-              | some dead =>
-                if s = 0 then none else                -- std::copy(slotkey + slot, ..., slotkey + slot - 1) with slot = 0
-                let keys3 := fx.keys.eraseIdx (s - 1)
-                let kids3 := fx.kids.eraseIdx s
-                let (lf, inf) := if dead.isLeaf then (1, 0) else (0, 1)
-                if l = 1 then
-                  match (kids3[s - 1]?).bind BNode.lastKey? with
-                  | none => none                       -- child->key(child->slotuse - 1) on an empty or non-leaf child
-                  | some k => some (keys3.set (s - 1) k, kids3, lf, inf)
-                else some (keys3, kids3, lf, inf)
-          else some (fx.keys, fx.kids, 0, 0)
-        match merged with
-        | none => none
-        | some (keys3, kids3, lf, inf) =>
-          let leafFree := r.leafFree + lf
-          let innerFree := r.innerFree + inf
-          let isRoot := ctx.par.isNone
-          if keys3.length < p.innerMin && !(isRoot && keys3.length ≥ 1) then
-            if ctx.left.isNone && ctx.right.isNone then
-              if isRoot then
-                match kids3[0]? with
-                | none => none
-                | some c0 => some (some { node := c0, rootDrop := true, leafFree := leafFree, innerFree := innerFree + 1 })
-              else none
-            else
-              match decideFix p.innerMin (ctx.left.map BNode.slotuse) (ctx.right.map BNode.slotuse) ctx.lp ctx.rp ctx.par with
-              | none => none
-              | some f =>
-                some (some { node := .inner l keys3 kids3, setSep := setSep, lastUp := lastUp, fix := f,
-                             leafFree := leafFree, innerFree := innerFree })
-          else
-            some (some { node := .inner l keys3 kids3, setSep := setSep, lastUp := lastUp,
-                         leafFree := leafFree, innerFree := innerFree })
+    | some (some (slot, r)) => (afterChild p l keys kids ctx slot r).map some
 
 structure EraseResult (K V : Type) where
   tree : Tree K V
